@@ -226,6 +226,45 @@ fn push_len(n: usize) -> usize {
 /// real keys whose cheapest script stays below 520 bytes while its satisfaction approaches the
 /// 1650-byte scriptSig limit. The compiler may refuse; what it returns must be spendable within
 /// the limits of the context it was compiled for.
+/// The 201-opcode limit of segwit v0 counts one opcode per CHECKMULTISIG key on top of the
+/// opcodes in the script: policies whose compilation has ~160 opcodes of single-key checks plus
+/// one or two multi() fragments sit on both sides of the limit.
+fn segwit_ops_case(rep: &mut Report, case: u64, rng: &mut Rng) {
+    let n1 = 44 + rng.below(14);
+    let k1 = n1 - rng.below(4);
+    let m = 12 + rng.below(9);
+    let groups = 1 + rng.below(2);
+    let mut next = 0usize;
+    let mut take = |n: usize| -> String {
+        let v: Vec<String> = (next..next + n).map(|j| format!("pk(K{})", j)).collect();
+        next += n;
+        v.join(",")
+    };
+    let big = format!("thresh({},{})", k1, take(n1));
+    let g1 = format!("thresh(1,{})", take(m));
+    let ptext = if groups == 1 { format!("and({},{})", big, g1) } else { format!("and({},and({},thresh(1,{})))", big, g1, take(m)) };
+    let conc = match guarded(|| Concrete::<String>::from_str(&ptext)) {
+        Ok(Ok(c)) => c,
+        _ => return,
+    };
+    rep.eval();
+    match guarded(move || conc.compile::<Segwitv0>()) {
+        Ok(Ok(ms)) => {
+            let text = ms.to_string();
+            rep.nontrivial(&format!("segwit-ops|{}|{}|{}|{}", n1, k1, m, groups));
+            if let Err(e) = ms.validate(&Segwitv0::SANE) {
+                rep.violation(case, "C08:output-not-sane:ops:compile<Segwitv0>".into(), format!("{}-of-{} keys and {} group(s) of 1-of-{} compiled to a script that fails the sanity rules of its context: {} ({} bytes)", k1, n1, groups, m, e, ms.script_size()));
+            } else if let Ok(Err(e)) = guarded(|| Miniscript::<String, Segwitv0>::from_str(&text).map(|_| ()).map_err(|e| e.to_string())) {
+                rep.violation(case, "C08:output-does-not-reparse:ops:compile<Segwitv0>".into(), format!("{}-of-{} keys and {} group(s) of 1-of-{}: {}", k1, n1, groups, m, e));
+            } else {
+                rep.count("segwit-ops: compiled, sane, re-parsed");
+            }
+        }
+        Ok(Err(_)) => rep.count("segwit-ops: refused"),
+        Err(m2) => compile_panicked(rep, case, "compile<Segwitv0>", &m2, &ptext),
+    }
+}
+
 fn legacy_limits_case(rep: &mut Report, case: u64, world: &World, rng: &mut Rng) {
     let n = 13 + rng.below(7);
     let base = 1 + rng.below(200) as u8;
@@ -353,6 +392,29 @@ pub fn run(cfg: &RunCfg, rep: &mut Report) {
                 api_built = Some((model, shown, obj));
             }
         }
+        // one case in nine: a threshold with k < n over keys and two absolute (or two relative) locks
+        // of different units, in every child order: whether the two units can meet on one path
+        // depends on k and on nothing else
+        if api_built.is_none() && i % 9 == 4 {
+            let n_keys = 1 + rng.below(3);
+            let mut kids: Vec<Pol> = (0..n_keys).map(|j| Pol::Atom(Atom::Key(j))).collect();
+            if rng.coin() {
+                kids.push(Pol::Atom(Atom::After(*rng.pick(&[100u32, 144, 499_999_999]))));
+                kids.push(Pol::Atom(Atom::After(*rng.pick(&[500_000_000u32, 500_000_001, 1_700_000_000]))));
+            } else {
+                kids.push(Pol::Atom(Atom::Older(*rng.pick(&[1u32, 10, 65_535]))));
+                kids.push(Pol::Atom(Atom::Older((1 << 22) | *rng.pick(&[1u32, 10, 65_535]))));
+            }
+            rng.shuffle(&mut kids);
+            let k = 1 + rng.below(kids.len());
+            let text = format!("thresh({},{})", k, kids.iter().map(|c| c.concrete(&nm)).collect::<Vec<_>>().join(","));
+            if let Ok(c) = Concrete::<String>::from_str(&text) {
+                rep.count("thresh-over-two-lock-units(accepted by the policy parser)");
+                api_built = Some((Pol::Thresh(k, kids), text, c));
+            } else {
+                rep.count("thresh-over-two-lock-units(refused by the policy parser)");
+            }
+        }
         let (p, pstr, conc) = match api_built {
             Some(x) => x,
             None => match guarded(|| Concrete::<String>::from_str(&pstr)) {
@@ -447,6 +509,9 @@ pub fn run(cfg: &RunCfg, rep: &mut Report) {
         }
         if i % 6 == 3 {
             legacy_limits_case(rep, i, &world, &mut rng);
+        }
+        if i % 12 == 5 {
+            segwit_ops_case(rep, i, &mut rng);
         }
         // real keys in mixed serialisations: a context that forbids a key kind (uncompressed in
         // segwit v0) must refuse or avoid it; what it returns must re-parse in that context
